@@ -36,6 +36,7 @@ func runC06(args []string) {
 		nv = 12
 		nrandom = 40
 	}
+	pickHist = func(k string) { r.Hist(k) }
 	corpus, err := buildCorpus(r, corpusCfg{Opts: []Opts{{}}, Random: nrandom, Name: "c06"})
 	if err != nil {
 		fatalSetup(r, err)
@@ -58,7 +59,7 @@ func runC06(args []string) {
 		}
 		corpus.forEachType(asan, func(ch *core.Child, t *CType) {
 			vg := codec.NewVG(t.Ctx, r.Seed)
-			cand := vg.Records(t.Def, 12)
+			cand := vg.RecordsRich(t.Def, 12)
 			// the first value (everything present) and those that add the most wire features
 			evs := pickRich(t, encodeValues(ch, t, cand), nv)
 			for vi, ev := range evs {
